@@ -162,16 +162,20 @@ def select_start_nodes(td, env, num_starts):
             + 1
         )
         if env.name == "op":
-            if (td["action_mask"][..., 1:].float().sum(-1) < num_starts).any():
+            available = td["action_mask"][..., 1:]
+            chosen = rearrange(selected - 1, "(n b) -> b n", n=num_starts)
+            if not available.gather(1, chosen).all():
                 # for the orienteering problem, we may have some nodes that are not available
-                # so we need to resample from the distribution of available nodes
-                selected = (
-                    torch.multinomial(
-                        td["action_mask"][..., 1:].float(), num_starts, replacement=True
+                # so we need to resample from the distribution of available nodes. Instances with
+                # enough available nodes get distinct ones, only the others are sampled with replacement
+                probs = available.float()
+                enough = probs.sum(-1) >= num_starts
+                selected = torch.multinomial(probs, num_starts, replacement=True)
+                if enough.any():
+                    selected[enough] = torch.multinomial(
+                        probs[enough], num_starts, replacement=False
                     )
-                    + 1
-                )  # re-add depot index
-                selected = rearrange(selected, "b n -> (n b)")
+                selected = rearrange(selected + 1, "b n -> (n b)")  # re-add depot index
     return selected
 
 
